@@ -130,7 +130,48 @@ def walk_tree(t, leaf, iv, out, T=None):
         if iv_f is not None:
             walk_tree(b, leaf, iv_f, out, T)
         return
+    # a leaf may still hold conditional *values* (a precision chosen by a ternary chain on |value|): lift the first such
+    # condition out of the leaf, split the interval on it and simplify both copies
+    inner = _find_abs_condition(t, leaf, T)
+    if inner is not None:
+        op, k, cond = inner
+        t_true, t_false = ev.assume(t, cond, True), ev.assume(t, cond, False)
+        if _find_abs_condition(t_true, leaf, T) == inner or _find_abs_condition(t_false, leaf, T) == inner:
+            raise ev.Inconclusive("a conditional value inside a Print branch could not be resolved: %s" % ev.show(cond)[:100])
+        iv_t, iv_f = split(iv, op, k)
+        if iv_t is not None:
+            walk_tree(t_true, leaf, iv_t, out, T)
+        if iv_f is not None:
+            walk_tree(t_false, leaf, iv_f, out, T)
+        return
     out.append((iv, t))
+
+
+def _find_abs_condition(t, leaf, T):
+    """First comparison `|value| op constant` that decides a conditional value inside t: (op, k, condition term)."""
+    stack = [t]
+    while stack:
+        x = stack.pop()
+        if isinstance(x, ev.Str):
+            stack.extend(x.parts)
+        elif isinstance(x, ev.Arr):
+            stack.extend(x.items)
+        elif isinstance(x, ev.Obj):
+            stack.extend(x.f.values())
+        elif isinstance(x, tuple) and x:
+            if x[0] == "g":
+                c = x[1]
+                while isinstance(c, tuple) and c and c[0] == "not":
+                    c = c[1]
+                if isinstance(c, tuple) and c and c[0] == "cmp":
+                    op, a, b = c[1], c[2], c[3]
+                    if cval(a) is not None and is_abs_of(b, leaf, T):
+                        a, b = b, a
+                        op = {"<": ">", ">": "<", "<=": ">=", ">=": "<="}.get(op, op)
+                    if is_abs_of(a, leaf, T) and cval(b) is not None:
+                        return op, cval(b), c
+            stack.extend(y for y in x if isinstance(y, (tuple, ev.Str, ev.Arr, ev.Obj)))
+    return None
 
 
 def within(iv, lo2, hi2):
